@@ -10,7 +10,7 @@ use crate::tape::Tape;
 use serde::de::DeserializeSeed;
 use serde_avro_fast::de::{read::ReaderRead, read::SliceRead, DeserializerConfig, DeserializerState};
 
-pub const RULE: &str = "case = (schema: generated - incl. recursive ones and zero-byte element types - or one of a few hostile-friendly shapes; input bytes: arbitrary tape bytes, a valid encoding, a valid encoding with random byte edits, or a hostile construction (block counts i64::MIN / +-2^62, lengths 2^62, huge counts over zero-byte elements, endless 0x02 recursion, over-long varints); limits: allowed_depth in [0,128], max_seq_size in {0,1,16,1000}, reader max_alloc_size in {0,1,64,4096,65536}; input as slice or chunked reader; targets IgnoredAny, an event-budgeted non-allocating digest, generic any-tree). Oracle: every call returns; valid encodings nested deeper than allowed_depth, holding a collection longer than max_seq_size, or (reader, chunk smaller than the field) a field larger than max_alloc_size give Err; the slice path with the digest target performs 0 heap allocations on success; reader path peak live heap <= max_alloc_size + 8 KiB; visitor events <= 4*(len+1)*(max_seq_size+1)*(schema nodes+1); reader calls <= 16*(len+1) + 4*events; \
+pub const RULE: &str = "case = (schema: generated - incl. recursive ones and zero-byte element types - or one of a few hostile-friendly shapes; input bytes: arbitrary tape bytes, a valid encoding, a valid encoding with random byte edits, or a hostile construction (block counts i64::MIN / +-2^62, lengths 2^62, huge counts over zero-byte elements, endless 0x02 recursion, over-long varints); limits: allowed_depth in [0,128], max_seq_size in {0,1,16,1000}, reader max_alloc_size in {0,1,64,4096,65536}; input as slice or chunked reader; targets IgnoredAny, an event-budgeted non-allocating digest, the same digest hinting deserialize_ignored_any at every node, generic any-tree, the typed-hint capture target (Option on every union, enum by index, integer decimals ...)). Oracle: every call returns; valid encodings nested deeper than allowed_depth, holding a collection longer than max_seq_size, or (reader, chunk smaller than the field) a field larger than max_alloc_size give Err; the slice path with the digest target performs 0 heap allocations on success; reader path peak live heap <= max_alloc_size + 8 KiB; visitor events <= 4*(len+1)*(max_seq_size+1)*(schema nodes+1), also while ignoring; reader calls <= 16*(len+1) + 4*events; \
 non-trivial = the input reaches nesting depth >=2, or trips one of the three limits, or is a hostile construction; distinct = hash of (schema JSON, input, limits)";
 
 const HOSTILE_SCHEMAS: &[&str] = &[
@@ -171,13 +171,31 @@ pub fn run(tape: &[u8], ctx: &mut Ctx) {
 			}
 		}
 	}
+	// --- slice, ignoring target with the same event budget: the work done for ignored data is bounded
+	// by the input length and the limits too (blocks carrying their byte size may be jumped over,
+	// blocks without one count towards max_seq_size like for any other target)
+	let ds_ign = DigestState::new(event_budget);
+	let r_ign = {
+		let mut stt = DeserializerState::with_config(SliceRead::new(&input), cfg.clone());
+		IgnoringDigest { state: &ds_ign }.deserialize(stt.deserializer()).map_err(|e| e.to_string().contains("event budget exceeded"))
+	};
+	if let Err(true) = r_ign {
+		ctx.violation("C04/work-not-bounded/ignoring-target", format!("schema {json} input {} ({} bytes) limits depth={} seq={}: more than {event_budget} visitor events while ignoring the value", hex(&input), len, lim.allowed_depth, lim.max_seq_size));
+	}
 	// --- slice, IgnoredAny and generic tree (totality)
-	{
+	if !matches!(r_ign, Err(true)) {
 		let mut stt = DeserializerState::with_config(SliceRead::new(&input), cfg.clone());
 		let _ = <serde::de::IgnoredAny as serde::Deserialize>::deserialize(stt.deserializer());
 		if lim.max_seq_size <= 1000 && input.len() <= 600 {
 			let mut stt = DeserializerState::with_config(SliceRead::new(&input), cfg.clone());
 			let _ = AnySeed.deserialize(stt.deserializer());
+			// typed hints (Option on every union, enum by index, integer targets for decimals, tuple/seq/map
+			// for durations ...): the choice is a function of the input, no tape bytes are consumed
+			let hsh = crate::tape::fnv64(&input);
+			let ccfg = CapCfg { hint_mode: (hsh & 1) as u8, enum_index: hsh & 2 != 0, decimal_hint: ((hsh >> 2) % 5) as u8, duration_mode: ((hsh >> 5) % 4) as u8, option_mode: hsh & 0x300 != 0 };
+			let cctx = CapCtx::new(&env, ccfg, Some(&input));
+			let mut stt = DeserializerState::with_config(SliceRead::new(&input), cfg.clone());
+			let _ = cctx.seed(&ms).deserialize(stt.deserializer());
 		}
 	}
 	// --- reader, digest target
